@@ -436,6 +436,51 @@ fn mode_drcp(args: &Args) {
     }
 }
 
+/// C06: proof logging
+fn mode_proof(args: &Args) {
+    let mut master = Rng::new(args.seed);
+    let mut cfg = cfg_from(args);
+    cfg.max_product = cfg.max_product.min(600);
+    cfg.plant_pct = 25;
+    cfg.max_vars = cfg.max_vars.min(4);
+    let dir = std::path::PathBuf::from(args.kv.get("dir").cloned().unwrap_or_else(|| format!("/verif/.work/proofs-{}", std::process::id())));
+    std::fs::create_dir_all(&dir).unwrap();
+    for i in 0..args.cases {
+        let case_seed = master.next();
+        if only_skip(args, i) {
+            continue;
+        }
+        let mut r = Rng(case_seed);
+        let m = gen_model(&mut r, &cfg);
+        let mut setup = Setup::random(&mut r);
+        setup.opts.resolver_uip = true; // proof logging is meaningful with learning
+        let kind = r.below(3) as u8;
+        let opt = if r.chance(1, 3) {
+            Some(OptSpec { maximise: r.chance(1, 2), lus: r.chance(1, 4), objective: View::of(r.usize(m.vars.len())) })
+        } else {
+            None
+        };
+        let id = format!("{}-{}", args.seed, i);
+        let desc = format!(
+            "scen=proof:{}:{} seed={} {}",
+            ["scaffold", "full", "hints"][kind as usize],
+            match &opt {
+                None => "satisfy".to_string(),
+                Some(s) => format!("{}:{}", if s.lus { "lus" } else { "lsu" }, if s.maximise { "max" } else { "min" }),
+            },
+            case_seed,
+            setup.describe()
+        );
+        run_case(&id, &desc, |out| {
+            kinds_meta(&m, out);
+            scen_proof(&m, &setup, kind, opt.as_ref(), &dir, out)
+        });
+    }
+    if !args.kv.contains_key("dir") {
+        let _ = std::fs::remove_dir_all(&dir);
+    }
+}
+
 /// One hand-written case: `pharness one --scen satisfy --model "<text>" [--opts ".."] [--brancher ".."]
 /// [--style N] [--cumopt I] [--assume "<atoms>"] [--obj "<view>"] [--max 0|1] [--lus 0|1] [--id name]`
 fn mode_one(args: &Args) {
@@ -516,6 +561,7 @@ fn main() {
         "bounds" => mode_bounds(&args),
         "tap" => mode_tap(&args),
         "drcp" => mode_drcp(&args),
+        "proof" => mode_proof(&args),
         "configs" => mode_configs(&args),
         "interrupt" => mode_interrupt(&args),
         "history" => mode_history(&args),
